@@ -94,14 +94,14 @@ def main():
     for ident, st, out in results:
         if kind == 'refactors':
             ok = st == 'done' and not out
-            print(f'{ident:<22} {"SILENT" if ok else "FALSE-ALARM"}')
+            print(f'{ident:<22} {"SILENT" if ok else (st if st != "done" else "FALSE-ALARM")}')
             if not ok:
                 bad += 1
                 for l in out[:14]:
                     print('      ', l)
         else:
             ok = st == 'done' and any('ANALYSIS-ERROR' not in l and 'INTERNAL-ERROR' not in l for l in out)
-            print(f'{ident:<10} {"DETECTED" if ok else "MISSED"}  {sorted({l.split()[0] for l in out})}')
+            print(f'{ident:<10} {"DETECTED" if ok else (st if st != "done" else "MISSED")}  {sorted({l.split()[0] for l in out})}')
             if not ok:
                 bad += 1
     print(f'{kind}: {len(results) - bad}/{len(results)} as expected')
